@@ -188,6 +188,20 @@ package dag
 //@ func (*state).loadState
 //@   trusted
 //@   benign
+// (Re)loading - at start and as the rollback hook of Add - SETS the in-memory highest clock to what is
+// stored (it must be able to go down again after a rolled-back write) and re-reads both digest trees.
+//@ func (*atomic.Uint32).Store
+//@   trusted
+//@   benign
+//@ func (*treeStore).read
+//@   trusted
+//@   benign
+//@ func (*state).loadState$1
+//@   prop C08
+//@   ensures [highest-clock-set-to-what-is-stored] did(call (*atomic.Uint32).Store #1) && arg(call (*atomic.Uint32).Store #1, 1) == ret(call (dag).getHighestClockValue #1)
+//@        && arg(call (dag).getHighestClockValue #1, 1) == tx
+//@   ensures [both-trees-reread] isNilIface(result) ==> did(call (*treeStore).read #1) && did(call (*treeStore).read #2) && arg(call (*treeStore).read #1, 0) == old(s.xorTree)
+//@        && arg(call (*treeStore).read #2, 0) == old(s.ibltTree) && arg(call (*treeStore).read #1, 1) == tx && arg(call (*treeStore).read #2, 1) == tx
 //@ func crypto/hash.SHA256Sum
 //@   trusted
 //@   pure
